@@ -23,7 +23,8 @@ def model (w : Nat) (l : Nat) (r : Int) : Option Nat :=
 def handle (kv : KV) : String :=
   match kv.nat? "w", kv.nat? "l", kv.int? "r", kv.get? "impl" with
   | some w, some l, some r, some impl =>
-    let id := s!"w={w},l={l},r={r}"
+    let site := (kv.get? "site").getD ""
+    let id := if site == "" then s!"w={w},l={l},r={r}" else s!"w={w},l={l},r={r},site={site}"
     let implOut : Option (Option Nat) :=
       if impl == "none" then some none else (impl.toNat?).map some
     match implOut with
@@ -32,7 +33,7 @@ def handle (kv : KV) : String :=
       let m := model w l r
       if !spec w l r io then s!"SPEC {id} which=exact impl={showOpt io} model={showOpt m}"
       else if m != io then s!"DIFF {id} model={showOpt m} impl={showOpt io}"
-      else s!"OK {id} tags={if io.isSome then "some" else "none"}"
+      else s!"OK {id} tags={if io.isSome then "some" else "none"}{if site == "" then "" else ",site"}"
   | _, _, _, _ => "ERR ? missing-field"
 
 end Driver.C20
